@@ -1,0 +1,20 @@
+//go:build verif_min && !verif && !verif_nogem
+
+package rosed
+
+// Copy of the internal/gem part of verif_export.go for the tag set verif_min (see
+// verif_min_export.go). Changes no existing code.
+
+import "github.com/dekarrin/rosed/internal/gem"
+
+type VerifGemString = gem.String
+
+func VerifClassBits(r rune) uint32                         { return gem.VerifClassBits(r) }
+func VerifShouldBreakAfter(chars []rune, i int) bool       { return gem.VerifShouldBreakAfter(chars, i) }
+func VerifSplit(r []rune) []int                            { return gem.Split(r) }
+func VerifFromRunes(r []rune) gem.String                   { return gem.VerifFromRunes(r) }
+func VerifGemNew(s string) gem.String                      { return gem.New(s) }
+func VerifGemZero() gem.String                             { return gem.Zero }
+func VerifGemRepeat(s gem.String, n int) gem.String        { return gem.Repeat(s, n) }
+func VerifRawRunes(s gem.String) []rune                    { return gem.VerifRawRunes(s) }
+func VerifCache(s gem.String) (uintptr, bool, bool, []int) { return gem.VerifCache(s) }
